@@ -58,6 +58,20 @@ class VwPlain:
     @classmethod
     def from_dict(cls, d):
         return cls(**d)
+class VwLazyProp(property):
+    """a user subclass of property (lazy/abstract property helpers are written like this)"""
+class VwTimedCProp(functools.cached_property):
+    pass
+class VwPropHost:
+    @VwLazyProp
+    def lazy(self):
+        return 1
+    @VwTimedCProp
+    def timed(self):
+        return 2
+    @abc.abstractproperty
+    def abstract(self):
+        return 3
 class VwNoHints:
     def __init__(self, a=0):
         self.a = a
@@ -185,6 +199,8 @@ INSTANCES = [
     "VwUnhashable()", "VwPlain.prop", "VwPlain.__dict__['cprop']", "VwPlain.meth", "VwPlain().meth", "vw_func", "len", "VwPlain", "int",
     "VwPlain.__dict__['from_dict']", "collections.deque()", "range(3)", "object()", "lambda: 0",
     "VwRecord(name='x')", "VwNamespace()", "property", "staticmethod(len)",
+    # instances of subclasses of property / cached_property
+    "VwPropHost.lazy", "VwPropHost.__dict__['timed']", "VwPropHost.__dict__['abstract']", "VwLazyProp", "VwPropHost()",
 ]
 
 # spelling groups: entries that denote one type (answers must be independent of spelling)
